@@ -35,7 +35,17 @@ def setup_imports():
     import logging
 
     logging.disable(logging.CRITICAL)
+    cov = None
+    if os.environ.get("VERIF_COV") and "pycomm3" not in sys.modules:   # tooling only: the lines executed by the import itself
+        import coverage
+        cov = coverage.Coverage(data_file=os.path.join(os.environ["VERIF_COV"], "cov.import"), data_suffix=str(os.getpid()),
+                                include=[os.path.join(REPO, "pycomm3", "*")], branch=True)
+        cov.start()
     import pycomm3
+    import pycomm3.packets, pycomm3.slc_driver, pycomm3.logix_driver  # noqa
+    if cov is not None:
+        cov.stop()
+        cov.save()
 
     here = os.path.realpath(os.path.dirname(pycomm3.__file__))
     want = os.path.realpath(os.path.join(REPO, "pycomm3"))
@@ -322,7 +332,18 @@ def _worker(args):
         mod = importlib.import_module(modname)
         ctx = Ctx(pid, tier, _derive_seed(seed, pid, idx), idx, findings.Known.load())
         t0 = time.monotonic()
-        mod.run_job(ctx, job)
+        cov = None
+        if os.environ.get("VERIF_COV"):   # tooling only (tools/coverage.sh): line coverage of the library per job
+            import coverage
+            cov = coverage.Coverage(data_file=os.path.join(os.environ["VERIF_COV"], f"cov.{pid}"), data_suffix=f"{idx}.{os.getpid()}",
+                                    include=[os.path.join(REPO, "pycomm3", "*")], branch=True)
+            cov.start()
+        try:
+            mod.run_job(ctx, job)
+        finally:
+            if cov is not None:
+                cov.stop()
+                cov.save()
         r = ctx.result()
         r["wall"] = time.monotonic() - t0
         r["job"] = job.get("part", "?")
